@@ -260,45 +260,45 @@ func min(a, b int) int {
 
 // expected write sets: table → allowed changed fields for updates ("*" = insert/delete of whole rows).
 var writeSets = map[string]map[string]string{
-	"base.CreateClass":              {"ClassSequence": "*", "Class": "*", "ClassIssuer": "*"},
-	"base.CreateProject":            {"ProjectSequence": "*", "Project": "*"},
-	"base.CreateBatch":              {"BatchSequence": "*", "Batch": "*", "BatchBalance": "*", "BatchSupply": "*", "OriginTxIndex": "*", "BatchContract": "*"},
-	"base.MintBatchCredits":         {"OriginTxIndex": "*", "BatchBalance": "TradableAmount,RetiredAmount", "BatchSupply": "TradableAmount,RetiredAmount"},
-	"base.SealBatch":                {"Batch": "Open"},
-	"base.Send":                     {"BatchBalance": "TradableAmount,RetiredAmount", "BatchSupply": "TradableAmount,RetiredAmount"},
-	"base.Retire":                   {"BatchBalance": "TradableAmount,RetiredAmount", "BatchSupply": "TradableAmount,RetiredAmount"},
-	"base.Cancel":                   {"BatchBalance": "TradableAmount", "BatchSupply": "TradableAmount,CancelledAmount"},
-	"base.Bridge":                   {"BatchBalance": "TradableAmount", "BatchSupply": "TradableAmount,CancelledAmount"},
-	"base.BridgeReceive":            {"ProjectSequence": "*", "Project": "*", "BatchSequence": "*", "Batch": "*", "BatchBalance": "*", "BatchSupply": "*", "OriginTxIndex": "*", "BatchContract": "*"},
-	"base.UpdateClassAdmin":         {"Class": "Admin"},
-	"base.UpdateClassIssuers":       {"ClassIssuer": "*"},
-	"base.UpdateClassMetadata":      {"Class": "Metadata"},
-	"base.UpdateProjectAdmin":       {"Project": "Admin"},
-	"base.UpdateProjectMetadata":    {"Project": "Metadata"},
-	"base.UpdateBatchMetadata":      {"Batch": "Metadata"},
-	"base.AddCreditType":            {"CreditType": "*"},
-	"base.SetClassCreatorAllowlist": {"ClassCreatorAllowlist": "*"},
-	"base.AddClassCreator":          {"AllowedClassCreator": "*"},
-	"base.RemoveClassCreator":       {"AllowedClassCreator": "*"},
-	"base.UpdateClassFee":           {"ClassFee": "*"},
-	"base.AddAllowedBridgeChain":    {"AllowedBridgeChain": "*"},
-	"base.RemoveAllowedBridgeChain": {"AllowedBridgeChain": "*"},
-	"base.BurnRegen":                {},
-	"basket.Create":                 {"Basket": "*", "BasketClass": "*"},
-	"basket.Put":                    {"BatchBalance": "TradableAmount", "BasketBalance": "Balance"},
-	"basket.Take":                   {"BasketBalance": "Balance", "BatchBalance": "TradableAmount,RetiredAmount", "BatchSupply": "TradableAmount,RetiredAmount"},
-	"basket.UpdateBasketFee":        {"BasketFee": "*"},
-	"basket.UpdateCurator":          {"Basket": "Curator"},
-	"basket.UpdateDateCriteria":     {"Basket": "DateCriteria"},
-	"marketplace.Sell":              {"Market": "*", "SellOrder": "*", "BatchBalance": "TradableAmount,EscrowedAmount"},
-	"marketplace.UpdateSellOrders":  {"Market": "*", "SellOrder": "Quantity,MarketId,AskAmount,DisableAutoRetire,Expiration,Maker", "BatchBalance": "TradableAmount,EscrowedAmount"},
-	"marketplace.CancelSellOrder":   {"SellOrder": "*", "BatchBalance": "TradableAmount,EscrowedAmount"},
-	"marketplace.BuyDirect":         {"SellOrder": "Quantity", "BatchBalance": "TradableAmount,RetiredAmount,EscrowedAmount", "BatchSupply": "TradableAmount,RetiredAmount"},
-	"marketplace.AddAllowedDenom":   {"AllowedDenom": "*"},
+	"base.CreateClass":               {"ClassSequence": "*", "Class": "*", "ClassIssuer": "*"},
+	"base.CreateProject":             {"ProjectSequence": "*", "Project": "*"},
+	"base.CreateBatch":               {"BatchSequence": "*", "Batch": "*", "BatchBalance": "*", "BatchSupply": "*", "OriginTxIndex": "*", "BatchContract": "*"},
+	"base.MintBatchCredits":          {"OriginTxIndex": "*", "BatchBalance": "TradableAmount,RetiredAmount", "BatchSupply": "TradableAmount,RetiredAmount"},
+	"base.SealBatch":                 {"Batch": "Open"},
+	"base.Send":                      {"BatchBalance": "TradableAmount,RetiredAmount", "BatchSupply": "TradableAmount,RetiredAmount"},
+	"base.Retire":                    {"BatchBalance": "TradableAmount,RetiredAmount", "BatchSupply": "TradableAmount,RetiredAmount"},
+	"base.Cancel":                    {"BatchBalance": "TradableAmount", "BatchSupply": "TradableAmount,CancelledAmount"},
+	"base.Bridge":                    {"BatchBalance": "TradableAmount", "BatchSupply": "TradableAmount,CancelledAmount"},
+	"base.BridgeReceive":             {"ProjectSequence": "*", "Project": "*", "BatchSequence": "*", "Batch": "*", "BatchBalance": "*", "BatchSupply": "*", "OriginTxIndex": "*", "BatchContract": "*"},
+	"base.UpdateClassAdmin":          {"Class": "Admin"},
+	"base.UpdateClassIssuers":        {"ClassIssuer": "*"},
+	"base.UpdateClassMetadata":       {"Class": "Metadata"},
+	"base.UpdateProjectAdmin":        {"Project": "Admin"},
+	"base.UpdateProjectMetadata":     {"Project": "Metadata"},
+	"base.UpdateBatchMetadata":       {"Batch": "Metadata"},
+	"base.AddCreditType":             {"CreditType": "*"},
+	"base.SetClassCreatorAllowlist":  {"ClassCreatorAllowlist": "*"},
+	"base.AddClassCreator":           {"AllowedClassCreator": "*"},
+	"base.RemoveClassCreator":        {"AllowedClassCreator": "*"},
+	"base.UpdateClassFee":            {"ClassFee": "*"},
+	"base.AddAllowedBridgeChain":     {"AllowedBridgeChain": "*"},
+	"base.RemoveAllowedBridgeChain":  {"AllowedBridgeChain": "*"},
+	"base.BurnRegen":                 {},
+	"basket.Create":                  {"Basket": "*", "BasketClass": "*"},
+	"basket.Put":                     {"BatchBalance": "TradableAmount", "BasketBalance": "Balance"},
+	"basket.Take":                    {"BasketBalance": "Balance", "BatchBalance": "TradableAmount,RetiredAmount", "BatchSupply": "TradableAmount,RetiredAmount"},
+	"basket.UpdateBasketFee":         {"BasketFee": "*"},
+	"basket.UpdateCurator":           {"Basket": "Curator"},
+	"basket.UpdateDateCriteria":      {"Basket": "DateCriteria"},
+	"marketplace.Sell":               {"Market": "*", "SellOrder": "*", "BatchBalance": "TradableAmount,EscrowedAmount"},
+	"marketplace.UpdateSellOrders":   {"Market": "*", "SellOrder": "Quantity,MarketId,AskAmount,DisableAutoRetire,Expiration,Maker", "BatchBalance": "TradableAmount,EscrowedAmount"},
+	"marketplace.CancelSellOrder":    {"SellOrder": "*", "BatchBalance": "TradableAmount,EscrowedAmount"},
+	"marketplace.BuyDirect":          {"SellOrder": "Quantity", "BatchBalance": "TradableAmount,RetiredAmount,EscrowedAmount", "BatchSupply": "TradableAmount,RetiredAmount"},
+	"marketplace.AddAllowedDenom":    {"AllowedDenom": "*"},
 	"marketplace.RemoveAllowedDenom": {"AllowedDenom": "*"},
-	"marketplace.GovSetFeeParams":   {"FeeParams": "*"},
+	"marketplace.GovSetFeeParams":    {"FeeParams": "*"},
 	"marketplace.GovSendFromFeePool": {},
-	"marketplace.PruneSellOrders":   {"SellOrder": "*", "BatchBalance": "TradableAmount,EscrowedAmount"},
+	"marketplace.PruneSellOrders":    {"SellOrder": "*", "BatchBalance": "TradableAmount,EscrowedAmount"},
 }
 
 // changedFields: columns whose stored value differs from the previous row.
